@@ -12,6 +12,8 @@ use crate::tunnel::server_config;
 
 #[derive(Debug, Default, Clone)]
 pub struct Seen {
+    /// after a failed TLS handshake the client connected again and spoke plain HTTP (first octets of what it sent)
+    pub plaintext_retry: Option<String>,
     pub accepted: bool,
     pub connect_head: Option<String>,
     pub request_head: Option<String>,
@@ -139,9 +141,45 @@ pub fn connect_proxy_then_tls(cert: &'static str) -> Peer {
     Peer { addr, seen, handle: Some(handle) }
 }
 
-/// https proxy: TLS to the proxy itself, then a plain absolute-form request which it answers directly.
+/// https proxy: TLS to the proxy itself, then a plain absolute-form request which it answers directly. When the handshake
+/// fails, the listener stays open for a moment: a client that comes back without TLS is answered in plain text and noted.
 pub fn https_proxy(cert: &'static str) -> Peer {
-    tls_server(cert)
+    let (l, addr) = listener();
+    let seen = Arc::new(Mutex::new(Seen::default()));
+    let s2 = seen.clone();
+    let handle = std::thread::spawn(move || {
+        if let Ok((sock, _)) = l.accept() {
+            s2.lock().unwrap().accepted = true;
+            serve_tls(sock, cert, &s2);
+            let failed = {
+                let s = s2.lock().unwrap();
+                s.request_head.is_none()
+            };
+            if failed {
+                let _ = l.set_nonblocking(true);
+                let t0 = std::time::Instant::now();
+                while t0.elapsed() < Duration::from_millis(150) {
+                    match l.accept() {
+                        Ok((mut sock, _)) => {
+                            let _ = sock.set_nonblocking(false);
+                            let _ = sock.set_read_timeout(Some(Duration::from_millis(500)));
+                            let mut first = [0u8; 1];
+                            if let Ok(1) = sock.peek(&mut first) {
+                                if first[0] != 0x16 {
+                                    let head = read_head(&mut sock).unwrap_or_default();
+                                    s2.lock().unwrap().plaintext_retry = Some(head.chars().take(80).collect());
+                                    let _ = sock.write_all(OK_RESPONSE);
+                                }
+                            }
+                            break;
+                        }
+                        Err(_) => std::thread::sleep(Duration::from_millis(5)),
+                    }
+                }
+            }
+        }
+    });
+    Peer { addr, seen, handle: Some(handle) }
 }
 
 /// https proxy carrying a CONNECT tunnel: TLS to the proxy itself (presenting `cert`), a CONNECT request inside that session,
@@ -205,6 +243,39 @@ pub fn https_proxy_then_tls(cert: &'static str) -> Peer {
                     let _ = outer.sock.shutdown(std::net::Shutdown::Both);
                 }
             }
+        }
+    });
+    Peer { addr, seen, handle: Some(handle) }
+}
+
+/// TLS origin that sends the head and the first `first` body bytes of a `total`-byte body, pauses for `pause`, then sends
+/// the rest (Content-Length framing when `length` is set, close-delimited otherwise).
+pub fn tls_pausing_server(first: usize, total: usize, pause: Duration, length: bool) -> Peer {
+    let (l, addr) = listener();
+    let seen = Arc::new(Mutex::new(Seen::default()));
+    let s2 = seen.clone();
+    let handle = std::thread::spawn(move || {
+        if let Ok((sock, _)) = l.accept() {
+            let _ = sock.set_read_timeout(Some(Duration::from_secs(5)));
+            let _ = sock.set_write_timeout(Some(Duration::from_secs(5)));
+            let Ok(conn) = ServerConnection::new(server_config("good")) else { return };
+            let mut tls = StreamOwned::new(conn, sock);
+            match read_head(&mut tls) {
+                Ok(h) if h.ends_with("\r\n\r\n") => {
+                    s2.lock().unwrap().request_head = Some(h);
+                    let body: Vec<u8> = (0..total).map(|i| b'a' + (i % 26) as u8).collect();
+                    let head = if length { format!("HTTP/1.1 200 OK\r\nContent-Length: {total}\r\n\r\n") } else { "HTTP/1.1 200 OK\r\n\r\n".to_string() };
+                    let _ = tls.write_all(head.as_bytes());
+                    let _ = tls.write_all(&body[..first]);
+                    let _ = tls.flush();
+                    std::thread::sleep(pause);
+                    let _ = tls.write_all(&body[first..]);
+                    tls.conn.send_close_notify();
+                    let _ = tls.flush();
+                }
+                _ => {}
+            }
+            let _ = tls.sock.shutdown(std::net::Shutdown::Both);
         }
     });
     Peer { addr, seen, handle: Some(handle) }
